@@ -14,14 +14,14 @@ def run(ctx):
     ctx.model_check("MC_CharGen", "MC_CharGen.cfg", "CharGen: OutValid, NoOutputUnlessDone, ErrIff over the recipe universe", workers=vlib.NCPU)
     ctx.model_check("MC_CharSets", "MC_CharSets.cfg", "all 2^15 class-flag triples x custom variants: exclusion wins, alphabet = (allowed + required) - excluded, "
                     "sorted listing is duplicate-free", workers=vlib.NCPU)
-    nob = ctx.tlapm("CharSetsProofs", timeout=300)
-    ctx.cover["tlapm"] = ("CharSetsProofs.tla: %d obligations proved for EVERY recipe record (unbounded): exclusion wins, required sets lie in the "
+    nob = ctx.tlapm("CharSetsProofs")
+    ctx.cover["tlapm"] = "proofs not re-checked in this run (prover did not finish)" if not nob else ("CharSetsProofs.tla: %d obligations proved for EVERY recipe record (unbounded): exclusion wins, required sets lie in the "
                           "alphabet, alphabet within (allowed + required) - excluded, a valid string has no excluded character and meets every "
                           "live required set" % nob)
     triples = charfam.flag_triples(rng, 900 if quick else 0, exhaustive=not quick)
     scen = []
     for (a, r, x) in triples:
-        variants = [rng.randrange(9)] if quick else [0, rng.randrange(1, 9)]
+        variants = [rng.randrange(charfam.NVARIANTS)] if quick else [0, rng.randrange(1, charfam.NVARIANTS)]
         for v in variants:
             L = rng.choice([1, 2, 8, 40, 96, 128])
             scen.append(charfam.flag_scen(a, r, x, v, L, 4 if quick else 6, "flag-paths"))
@@ -29,6 +29,7 @@ def run(ctx):
     rng.shuffle(uni)
     scen += [charfam.concretize(s, rng) for s in uni[: (100 if quick else 1500)]]
     scen += charfam.seeded_small(ctx, rng, 40 if quick else 400)
+    scen += charfam.directed_small_trees()
     files, cells, leaves = charfam.run_scenarios(ctx, scen, "c03", shards=vlib.NCPU)
     sf, sc_, sl = charfam.run_sequences(ctx, charfam.collision_sequences(), "c03")
     files, cells, leaves = files + sf, cells + sc_, leaves + sl
